@@ -532,6 +532,16 @@ Definition handler_calls (fx : fixture) (q : req) : list ccall :=
       within b (obj_http MPut b (norm_object (q_object q)))
   end.
 
+(* the routes that put the bucket name into a filer URL (where it is decoded once more);
+   the other routes hand it to the filer's gRPC side as it is *)
+Definition decodes_bucket (r : route) : bool :=
+  match r with
+  | RPut | RGet | RHead | RDelete | RPostPolicy | RCopy _ | RCopyPart | RPutPart => true
+  | _ => false
+  end.
+(* finding 2, per request: an odd bucket name on one of these routes *)
+Definition odd_request (q : req) : bool := odd_bucket (q_bucket q) && decodes_bucket (q_route q).
+
 (* the router in front: a bucket name it refuses reaches no handler (404, no filer call) *)
 Definition calls (fx : fixture) (q : req) : list ccall :=
   if router_refuses (q_bucket q) then [] else handler_calls fx q.
